@@ -22,7 +22,8 @@ def main():
     spec = importlib.util.spec_from_file_location("mutants", os.path.join(HERE, "handmut", "mutants.py"))
     mod = importlib.util.module_from_spec(spec)
     spec.loader.exec_module(mod)
-    sel = sys.argv[1:]
+    force = "--force" in sys.argv
+    sel = [a for a in sys.argv[1:] if a != "--force"]
     res_p = os.path.join(HERE, "handmut", "results.json")
     results = json.load(open(res_p)) if os.path.exists(res_p) else {}
     rc, st = sh("git -C %s status --porcelain --untracked-files=no" % REPO)
@@ -33,7 +34,7 @@ def main():
         mid = "%s/%s" % (m["p"], m["id"])
         if sel and not any(s in mid for s in sel):
             continue
-        if not sel and mid in results and results[mid].get("hash") == hash_of(m):
+        if not sel and not force and mid in results and results[mid].get("hash") == hash_of(m):
             continue
         path = os.path.join(REPO, m["file"])
         src = open(path).read()
